@@ -32,7 +32,7 @@ MANIFEST = {
     "level_note": "sampled pairs; executor replaced by the ray stand-in",
 }
 VARIANTS = ["truth_only", "ukf_params", "policy", "sensor_set", "sensor_noise", "seed", "output_cadence", "split_calls", "schedule_reverse",
-            "schedule_random", "exec_order_reverse", "exec_order_random", "extra_target_static", "extra_target_static", "fewer_targets_static", "target_added_by_event", "target_removed_by_event", "id_reused_after_removal", "same_timed_burn_on_other_agent", "two_engines", "filter_model", "maneuver_detection"]
+            "schedule_random", "exec_order_reverse", "exec_order_random", "extra_target_static", "extra_target_static", "fewer_targets_static", "target_added_by_event", "target_removed_by_event", "id_reused_after_removal", "same_timed_burn_on_other_agent", "other_agent_maneuvers_id_zero", "two_engines", "filter_model", "maneuver_detection"]
 
 
 def trajectory(cfg, nsteps, **kw):
@@ -206,6 +206,20 @@ def make_pair(net, variant, rng):
         xcfg["platform"].update({"mass": 250.0, "visual_cross_section": 12.0, "reflectivity": 0.3})
         a["engines"][0]["targets"].append(xcfg)
         kb["_late_join"] = {"id": 19800, "j": rng.randrange(2, max(3, n + 1)), "cfg": copy.deepcopy(xcfg)}
+    elif variant == "other_agent_maneuvers_id_zero":
+        # both runs track a satellite whose id is 0; run B only: another satellite that performs an impulse and a finite burn
+        r0, v0 = sk.circ_state(7700.0, 35.0, 210.0, 15.0)
+        z = sk.target_cfg(0, r0, v0)
+        a["engines"][0]["targets"].append(copy.deepcopy(z))
+        b["engines"][0]["targets"].append(copy.deepcopy(z))
+        r, v = sk.circ_state(8100.0, 77.0, 12.0, 222.0)
+        b["engines"][0]["targets"].append(sk.target_cfg(19001, r, v))
+        start = datetime.fromisoformat(net["start"])
+        t1 = start + timedelta(seconds=net["step"] * rng.randrange(1, max(2, n - 1)) + rng.choice([0, 1]))
+        b["events"].append({"scope": "agent_propagation", "scope_instance_id": 19001, "start_time": sk.iso(t1), "event_type": "impulse",
+                            "thrust_vector": [0.0, 0.01, 0.0], "thrust_frame": "ntw", "planned": rng.random() < 0.5})
+        b["events"].append({"scope": "agent_propagation", "scope_instance_id": 19001, "start_time": sk.iso(t1 + timedelta(seconds=1)), "end_time": sk.iso(t1 + timedelta(seconds=net["step"])),
+                            "event_type": "finite_burn", "acc_vector": [0.0, 2e-5, 0.0], "thrust_frame": "ntw", "planned": False})
     elif variant == "two_engines":
         # run B partitions the same agents over two tasking engines
         e1 = b["engines"][0]
@@ -378,6 +392,14 @@ def run(ctx):
         if variant in ("extra_target_static", "fewer_targets_static", "target_added_by_event", "target_removed_by_event", "exec_order_reverse", "exec_order_random") and rng.random() < 0.6:
             # agent-set and execution-order variants matter most where agents share more than the point-mass model
             net["truth_model"] = "special_perturbations"
+        if variant in ("extra_target_static", "fewer_targets_static", "target_added_by_event", "target_removed_by_event", "exec_order_reverse", "exec_order_random",
+                       "schedule_reverse", "schedule_random") and rng.random() < 0.35:
+            # one step of the run spans 00:00 UTC (the day on which Earth-orientation data are looked up changes inside a job)
+            d0 = datetime.fromisoformat(net["start"])
+            mid = datetime(d0.year, d0.month, d0.day) + timedelta(days=1)
+            net["start"] = (mid - timedelta(seconds=net["step"] * rng.randrange(0, max(1, net["nsteps"] - 1)) + rng.choice([net["step"] // 2, 1, net["step"] - 1]))).isoformat()
+            net["truth_model"] = "special_perturbations"
+            ctx.count("pairs_with_a_step_spanning_utc_midnight")
         if variant == "two_engines":
             for _ in range(20):
                 if len(net["sensors"]) >= 2 and len(net["targets"]) >= 2:
